@@ -270,6 +270,16 @@ func loopThenDefer(n int) {
 	defer println("after loop")
 }
 
+// defers of a nested loop, then an unconditional defer after the loops
+func nestedLoopThenDefer(n int) {
+	for i := 0; i < n; i++ {
+		for j := 0; j < n; j++ {
+			defer println("loop", i, j)
+		}
+	}
+	defer println("after loops")
+}
+
 func mayPanic(b bool) {
 	if b {
 		panic("mp")
@@ -407,6 +417,7 @@ func main() {
 	wrap("named", func() { println("named", named()) })
 	wrap("argsEvaluatedAtDefer", argsEvaluatedAtDefer)
 	wrap("loopThenDefer", func() { loopThenDefer(3) })
+	wrap("nestedLoopThenDefer", func() { nestedLoopThenDefer(2) })
 	wrap("alwaysUnreached", func() { alwaysUnreached(true) })
 	wrap("alwaysReached", func() { alwaysUnreached(false) })
 	wrap("drainCross", func() { drainCross(2, true, 0) })
